@@ -19,6 +19,16 @@ def dg(*parts) -> str:
     return h.hexdigest()[:24]
 
 
+PROBLEMS = []
+
+
+def expect_same(what, a, b):
+    """history independence inside one item: a construction used after some history must give the
+    same as the same construction used fresh."""
+    if a != b:
+        PROBLEMS.append(f"{what}: result after earlier use differs from a fresh construction")
+
+
 def deps_sig(deps):
     return [(d.name, str(d.version)) for d in deps]
 
@@ -91,12 +101,40 @@ def battery():
         return dg(r["html"], str(d), d.as_dict(), deps_sig(r["dependencies"]))
 
     def version_spelling_b():
-        # same name, same version spelled differently, different files
-        d = HTMLDependency("widget", "2.0.0", source={"subdir": "lib/other"}, script=[{"src": "other.js"}, {"src": "b.js"}])
+        # identical to version_spelling_a's dependency except for how the version is spelled
+        d = dep("widget", "2.0.0", stylesheet={"href": "w.css"})
         r = HTMLDocument(tags.div("b", d)).render()
+        # the dependency is changed after it has been rendered: later renders show the change,
+        # exactly as a dependency built that way from the start
         d.script.append({"src": "later.js"})
+        d.meta.append({"name": "m", "content": "c"})
         r2 = HTMLDocument(tags.div("b", d)).render()
+        fresh = HTMLDependency("widget", "2.0.0", source={"subdir": "lib/widget"},
+                               script=[{"src": "widget.js"}, {"src": "later.js"}], stylesheet={"href": "w.css"},
+                               meta={"name": "m", "content": "c"})
+        expect_same("dependency changed after a render", (r2["html"], str(d), repr(d.as_dict())),
+                    (HTMLDocument(tags.div("b", fresh)).render()["html"], str(fresh), repr(fresh.as_dict())))
         return dg(r["html"], r2["html"], str(d), d.as_dict())
+
+    def shared_page():
+        # one TagList used for several documents, one of which is appended to
+        def mk():
+            return TagList(tags.div("page", dep("pg")), "tail")
+        page = mk()
+        d1 = HTMLDocument(page)
+        h1 = d1.render()["html"]
+        d1.append(tags.p("extra"), dep("extra-dep"), head_content(tags.title("x")))
+        d1.render()
+        d2 = HTMLDocument(page)
+        expect_same("TagList used by a document that was appended to", (d2.render()["html"], str(page)),
+                    (HTMLDocument(mk()).render()["html"], str(mk())))
+        t = tags.div("t", class_="a")
+        t.get_html_string(2)
+        t.add_class("b")
+        t.attrs.pop("class")
+        t.append(tags.span("late"))
+        expect_same("tag changed after a render", t.get_html_string(), tags.div("t", tags.span("late")).get_html_string())
+        return dg(h1, d2.render()["html"], str(page))
 
     def text_document_b():
         ser = dep("solo").serialize_to_script_json().get_html_string()
@@ -106,7 +144,7 @@ def battery():
                   str(TagList(1, 1.0, True, 0, -0.0, 0.0)))
 
     return [("escapes", escapes), ("version_spelling_a", version_spelling_a), ("version_spelling_b", version_spelling_b),
-            ("text_document_b", text_document_b), ("many_deps", many_deps), ("dup_head_content", dup_head_content), ("text_document", text_document),
+            ("text_document_b", text_document_b), ("shared_page", shared_page), ("many_deps", many_deps), ("dup_head_content", dup_head_content), ("text_document", text_document),
             ("jsx_component", jsx_component), ("attr_merges", attr_merges), ("resolution", resolution)]
 
 
@@ -209,8 +247,10 @@ def main():
             elif first[name] != d:
                 order_dependent.append({"item": name, "order": [n for n, _ in order]})
     import htmltools
+    hc = head_content_facts()
+    hc["problems"] += sorted(set(PROBLEMS))
     out = {"digests": first, "order_dependent": order_dependent[:5], "executions": nexec,
-           "hc": head_content_facts(), "mode": htmltools.html_dependency_render_mode}
+           "hc": hc, "mode": htmltools.html_dependency_render_mode}
     print(json.dumps(out))
 
 
